@@ -172,8 +172,17 @@ func mCanonical() mLayout {
 }
 
 // mVary changes ONE layout dimension of L (chosen symbolically).
-func mVary(L mLayout, tag string) mLayout {
-	switch zzverif.IntRange(tag+"dim", 0, 13) {
+func mVary(L mLayout, tag string) mLayout { return mVaryAmong(L, tag, nil) }
+
+// mVaryAmong: the dimension is taken from the given list (nil: any of the 14).
+func mVaryAmong(L mLayout, tag string, among []int) mLayout {
+	dim := 0
+	if among == nil {
+		dim = zzverif.IntRange(tag+"dim", 0, 13)
+	} else {
+		dim = among[zzverif.IntRange(tag+"dim", 0, len(among)-1)]
+	}
+	switch dim {
 	case 0:
 		L.nl = []string{"\r\n", "\r"}[zzverif.IntRange(tag+"nl", 0, 1)]
 	case 1:
@@ -211,7 +220,10 @@ func mVary(L mLayout, tag string) mLayout {
 func mVaried() mLayout {
 	L := mVary(mCanonical(), "1.")
 	if zzverif.Bound("dims", 1, 2) == 2 {
-		L = mVary(L, "2.")
+		// thorough: a second dimension out of the three that change the line
+		// structure (line ends, /* */ annotations, user comments); the full
+		// product of two arbitrary dimensions did not finish in 45 minutes
+		L = mVaryAmong(L, "2.", []int{0, 4, 6})
 	}
 	return L
 }
@@ -312,10 +324,7 @@ func ZzC14Pair() (*JSchema, *JSchema) {
 		base.multi, base.noteBreak = true, true
 	}
 	t1 := mPrintL(m, base)
-	L2 := mVary(base, "1.")
-	if zzverif.Bound("dims", 1, 2) == 2 {
-		L2 = mVary(L2, "2.")
-	}
+	L2 := mVary(base, "1.") // one dimension in both tiers
 	t2 := mPrintL(m, L2)
 	mk2 := func(text string) *JSchema {
 		s := New("s", text)
